@@ -7,4 +7,18 @@ func (*Counter).Inc
   props C19
   modifies c.val
   ensures counts-one: c.val == old(c.val) + 1
+
+func (*Counter).IncBy
+  props C19
+  modifies c.val
+  ensures counts-the-delta: c.val == old(c.val) + delta
+
+func (*Counter).Value
+  props C19
+  ensures reads-the-count: result == c.val
+
+func (*Counter).Reset
+  props C19
+  modifies c.val
+  ensures starts-again-from-zero: c.val == 0
 @*/
